@@ -123,6 +123,14 @@ fn execute(ctx: &Ctx, c: &Cfg) -> Run {
       sb.write("other", b"HELLO");
       vec!["torrent", "verify", "--input", "t.torrent", "--content", "other"].into_iter().map(String::from).collect()
     }
+    ("verify-only-an-empty-file-missing", _) => {
+      // the bytes are all there and hash as listed; a listed file of length zero is not: a failed verification
+      let files = B::List(vec![B::dict(vec![("length", B::Int(5)), ("path", B::List(vec![B::s("a")]))]), B::dict(vec![("length", B::Int(0)), ("path", B::List(vec![B::s("EMPTY")]))])]);
+      let info = B::dict(vec![("name", B::s("tree")), ("piece length", B::Int(16384)), ("pieces", B::Bytes(sha1::Sha1::from(b"hello").digest().bytes().to_vec())), ("files", files)]);
+      sb.write("multi.torrent", &B::dict(vec![("info", info)]).encode());
+      sb.write("tree/a", b"hello");
+      vec!["torrent", "verify", "--input", "multi.torrent", "--content", "tree"].into_iter().map(String::from).collect()
+    }
     ("announce", false) => {
       let mut payload = vec![0, 0, 7, 8, 0, 0, 0, 1, 0, 0, 0, 2];
       payload.extend_from_slice(&[10, 0, 0, 1, 0x1a, 0xe1, 10, 0, 0, 2, 0, 80]);
@@ -255,12 +263,12 @@ pub fn run(ctx: &Ctx) -> Report {
   report.rule.push_str("; plus: --open with a talkative launcher first in PATH, announce with no peers and with two trackers sharing a peer, non-UTF-8 option values, help and version forms, lint refusals, standard output closed early or on a full device, standard error on a pseudo-terminal with and without --quiet for eight commands; write_all through the real OutputStream over a scripted writer (short writes of every size, failing writes, inactive stream: hook stream_write_all); a standard output whose reader stalls while the command is suspended and resumed");
   report.correspondences.push("C18.streams: stderr activity / stdout styling of the real binary = Imdlv.Streams.{outStream,errStream}; exit status = exitCode".into());
   let mut cfgs = Vec::new();
-  for scenario in ["create-stdout", "create-file", "create-open", "link", "link-open", "show-json", "show", "verify", "announce", "announce-no-peers", "announce-two-trackers", "piece-length", "completions", "completions-dir", "usage", "usage-no-subcommand", "usage-torrent-alone", "usage-missing-value", "usage-bad-value", "usage-non-utf8-value", "version", "version-short", "help", "help-subcommand", "create-lint-rejected"] {
+  for scenario in ["create-stdout", "create-file", "create-open", "link", "link-open", "show-json", "show", "verify", "announce", "announce-no-peers", "announce-two-trackers", "piece-length", "completions", "completions-dir", "usage", "usage-no-subcommand", "usage-torrent-alone", "usage-missing-value", "usage-bad-value", "usage-non-utf8-value", "version", "version-short", "help", "help-subcommand", "create-lint-rejected", "verify-only-an-empty-file-missing"] {
     for fail in [false, true] {
       if fail && (matches!(scenario, "piece-length" | "version" | "version-short" | "help" | "help-subcommand") || scenario.starts_with("usage")) {
         continue;
       }
-      if !fail && scenario == "create-lint-rejected" {
+      if !fail && matches!(scenario, "create-lint-rejected" | "verify-only-an-empty-file-missing") {
         continue;
       }
       for quiet in [false, true] {
@@ -373,7 +381,7 @@ pub fn run(ctx: &Ctx) -> Report {
     // commands that write chatter or a diagnostic to stderr
     // usage errors are printed by the status wrapper before --quiet / --color are applied
     let is_usage = c.scenario.starts_with("usage") || (c.scenario == "completions" && c.fail);
-    let writes_err = (matches!(c.scenario, "create-stdout" | "create-file" | "create-open" | "verify") || !success) && !is_usage;
+    let writes_err = (matches!(c.scenario, "create-stdout" | "create-file" | "create-open" | "verify" | "verify-only-an-empty-file-missing") || !success) && !is_usage;
     if writes_err && !c.scenario.starts_with("usage") && (o.stderr.is_empty() == err_active) {
       md = Some(format!("stderr {} bytes, model err.active={err_active}", o.stderr.len()));
     }
@@ -459,6 +467,31 @@ pub fn run(ctx: &Ctx) -> Report {
           report.fail("property", "stream-discipline", case, format!("standard output could not be written ({what}): exit status {:?}, expected a reported failure (1); stderr: {}", o.status.code(), String::from_utf8_lossy(&o.stderr).lines().last().unwrap_or("")));
         }
       }
+    }
+  }
+  // ---- a tracker that never answers beside one that does, under --quiet: the peers on standard output, standard error
+  // empty (whatever is said about the silent tracker is chatter), exit status 0; takes the client's three timeouts
+  if ctx.replay.is_none() {
+    let sb = Sandbox::new(&ctx.work, "c18d");
+    let dead = std::net::UdpSocket::bind("127.0.0.1:0").expect("bind loopback UDP");
+    let mut payload = vec![0, 0, 7, 8, 0, 0, 0, 1, 0, 0, 0, 2];
+    payload.extend_from_slice(&[10, 0, 0, 1, 0x1a, 0xe1, 10, 0, 0, 2, 0, 80]);
+    let live = Sim::start(false, vec![Resp::Correct(vec![1, 2, 3, 4, 5, 6, 7, 8])], vec![Resp::Correct(payload)]);
+    let info = B::dict(vec![("name", B::s("data")), ("piece length", B::Int(16384)), ("pieces", B::Bytes(vec![1; 20])), ("length", B::Int(5))]);
+    let tiers = B::List(vec![B::List(vec![B::s(&format!("udp://127.0.0.1:{}/announce", dead.local_addr().unwrap().port()))]), B::List(vec![B::s(&format!("udp://127.0.0.1:{}/announce", live.addr.port()))])]);
+    sb.write("a.torrent", &B::dict(vec![("info", info), ("announce-list", tiers)]).encode());
+    let o = Cmd::new(&ctx.imdl, &["--quiet", "torrent", "announce", "--input", "a.torrent"]).cwd(&sb.root).env_remove_all(&["RUST_LOG"]).timeout_s(60).run();
+    let _ = live.finish();
+    drop(dead);
+    let case = json!({"scenario": "announce-one-tracker-silent", "quiet": true});
+    report.case(Some(fnv_str(&case.to_string())));
+    report.hit("scenario:announce-one-tracker-silent");
+    let mut lines: Vec<String> = o.stdout_s().lines().map(|l| l.to_string()).collect();
+    lines.sort();
+    if o.code != Some(0) || lines != vec!["10.0.0.1:6881", "10.0.0.2:80"] {
+      report.fail("property", "stream-discipline", case, format!("one tracker silent, one answering two peers: exit {:?}, stdout {:?}", o.code, o.stdout_s()));
+    } else if !o.stderr.is_empty() {
+      report.fail("property", "stream-discipline", case, format!("--quiet, success, and yet standard error holds {} bytes: {:?}", o.stderr.len(), o.stderr_s().lines().next().unwrap_or("")));
     }
   }
   // ---- `write_all` through the real `OutputStream` over a scripted writer (hook `stream_write_all`): every pattern of
